@@ -761,6 +761,21 @@ def gen_c11(tier, rng):
     for c in gen_pp("pfprefilter", tier, rng, isas=("sse2",))[:: (3 if tier == "quick" else 1)]:
         c = c.replace(" isa=sse2", "")
         cases.append(c)
+    # the first pair byte occurs so close to either end that the partner's position falls outside the haystack:
+    # no candidate may be reported there (portable prefilter: checked_sub / haystack.get; vector: tail chunk)
+    k = 0
+    for x in (b"abcdefgh", bytes(range(1, 41)), b"xy" + b"z" * 30):
+        n = len(x)
+        for (i1, i2) in ((0, n - 1), (n - 1, 0), (1, n - 2), (n - 2, 1), (0, 1), (3, 5)):
+            for L in (n, n + 1, n + 7, n + 16, n + 33, n + 64):
+                for p_ in sorted(set([0, 1, i1 - 1, i1, i2 - 1, L - 1, L - 2, L - 1 - abs(i2 - i1), L - abs(i2 - i1), L - n])):
+                    if 0 <= p_ < L:
+                        h = bytearray(b"q" * L); h[p_] = x[i1]
+                        k += 1
+                        for cpu in (CPUS if tier != "quick" else [CPUS[k % 3]]):
+                            cases.append(f"pfprefilter x={hexs(x)} i1={i1} i2={i2} a={k % 64} h={hexs(bytes(h))}" + (f" cpu={cpu}" if cpu else ""))
+                        for isa in ("sse2", "avx2"):
+                            cases.append(f"ppprefilter isa={isa} x={hexs(x)} i1={i1} i2={i2} a={k % 64} h={hexs(bytes(h))}")
     return cases
 
 # --------------------------------------------------------------------------
@@ -1431,6 +1446,9 @@ def gen_c09(tier, rng):
     # needles above 32 bytes go through Two-Way + the per-ISA prefilter wiring (prefilter_kind_{sse2,avx2,fallback}):
     # all such cases, each under a forced dispatch outcome (seeded change C09-c: SSE2-only prefilter wiring)
     import re as _re
+    for isa in ("avx2", "sse2"):
+        for cpu in ("", "sse2", "none"):
+            cases.append(f"avail isa={isa}" + (f" cpu={cpu}" if cpu else ""))
     longs = [c for c in c3 if c.startswith("mm f=find") and len(parse_kv(c).get("x", "")) > 64]
     for i, c in enumerate(longs[:: (3 if quick else 1)]):
         c = _re.sub(r" cpu=\w+", "", c)
@@ -1438,7 +1456,24 @@ def gen_c09(tier, rng):
         cases.append(c + (f" cpu={cpu}" if cpu else ""))
     return cases
 
+def build_expect_c09(op, kv, bname):
+    """which x86 searchers report themselves available in which build: run-time detection needs std; without std only
+    compile-time target features count; the forced detection outcome (cpu=) only exists in hooked builds"""
+    if op != "avail":
+        return None
+    hooked = not bname.startswith("plain")
+    cpu = kv.get("cpu", "") if hooked else ""
+    std = "+nofeatures" not in bname and "+alloconly" not in bname
+    avx2_compiled = "+avx2" in bname
+    if kv["isa"] == "sse2":
+        ok = cpu != "none"
+    else:
+        ok = (avx2_compiled or std) and cpu not in ("sse2", "none")
+    return "1111" if ok else "0000"
+
 def oracle_c09(op, kv, res, trace, flags):
+    if op == "avail":
+        return None
     if op in ("find", "rfind", "count"):
         return oracle_memchr(op, kv, res, trace, flags)
     if op == "iter":
